@@ -162,6 +162,23 @@ def rule_rangedecoder(facts):
             r.ok("evaluation", {"decode_bit": "bit = !(code < (range >> 11) * prob)"})
         true_e, false_e = blk.term.otherwise, blk.term.targets[0][1]
         zero_e, one_e = (true_e, false_e) if sense in (True, None) else (false_e, true_e)
+        # the same test may be consulted more than once (`let bit = code >= bound;` then two `if bit`): every switch on it counts
+        sides = [(zero_e, one_e)]
+        for b2 in db.blocks:
+            if b2.cleanup or b2.term.k != "switch" or len(b2.term.targets) != 1 or b2.idx == blk.idx:
+                continue
+            t2 = pt.at(b2.idx, None).of_operand(b2.term.discr)
+            if not (pat.cmp_sides(t2) and pat.has_field(t2, "code")):
+                continue
+            try:
+                tv2 = [pat.eval_cmp(t2, _leaf(R, C, P)) for (R, C, P) in pts]
+            except (pat.NotEvaluable, pat.Overflow):
+                continue
+            te2, fe2 = b2.term.otherwise, b2.term.targets[0][1]
+            if tv2 == ref:
+                sides.append((te2, fe2))
+            elif tv2 == [not x for x in ref]:
+                sides.append((fe2, te2))
         want = {
             (0, "range"): lambda R, C, P: bound(R, P),
             (0, "prob"): lambda R, C, P: P + ((0x800 - P) >> 5),
@@ -174,8 +191,38 @@ def rule_rangedecoder(facts):
             w = _which(pl)
             if w is None:
                 continue
-            bit = 0 if (c.dominates(zero_e, bb) or zero_e == bb) else 1 if (c.dominates(one_e, bb) or one_e == bb) else None
+            bit = None
+            for (ze_, oe_) in sides:
+                if c.dominates(ze_, bb) or ze_ == bb:
+                    bit = 0
+                elif c.dominates(oe_, bb) or oe_ == bb:
+                    bit = 1
             n += 1
+            if bit is None and w == "prob":
+                # one store of a value chosen by the bit (`*prob = if bit { .. } else { .. }`): the value under each valuation
+                st_ = db.blocks[bb].stmts[i]
+                if st_.rv.k == "use" and st_.rv.op.place is not None and not st_.rv.op.place.proj:
+                    try:
+                        bad_ = None
+                        for p_ in range(1, 0x800, 3):
+                            for (R_, C_) in ((1 << 24, 0), (1 << 24, 0xFFFFFF00)):
+                                got_ = pat.eval_gated(db, pt, st_.rv.op.place.local, bb, _leaf(R_, C_, p_), i)
+                                exp_ = (p_ + ((0x800 - p_) >> 5)) if C_ < bound(R_, p_) else (p_ - (p_ >> 5))
+                                if got_ != exp_:
+                                    bad_ = (R_, C_, p_, got_, exp_)
+                                    break
+                            if bad_:
+                                break
+                        if bad_:
+                            r.bad("decode_bit|store:prob", "the new probability for range=0x%x code=0x%x prob=0x%x is 0x%x, the coder needs 0x%x" % bad_,
+                                  pat.where(db, bb))
+                        else:
+                            seen.add((0, "prob"))
+                            seen.add((1, "prob"))
+                            r.ok("evaluation", None)
+                        continue
+                    except (pat.NotEvaluable, pat.Overflow):
+                        pass
             if bit is None or (bit, w) not in want:
                 r.bad("decode_bit|store:%s" % w, "unexpected store to %s (outside / on the wrong side of the bit test)" % w, pat.where(db, bb))
                 continue
